@@ -494,6 +494,12 @@ class C13(Prop):
         directed += [{'session_workload': True, 'n': 30, 'session': 'rpc', 'transport': 'us', 'ptimeout': 1.5,
                       'steps': [['cost', 6000], ['arrive', 14], ['advance', 0.5], ['cost', 3000], ['arrive', 6], ['advance', 1.2],
                                 ['finish', 5], ['advance', 1.0], ['arrive', 5], ['finish', 10], ['advance', 3.0]]}]
+        # the cost passes the hard limit (nobody may start) and is refunded while handlers are still running, with no
+        # arrival in between: the handlers still running keep their permits, later arrivals queue behind them
+        directed += [{'session_workload': True, 'n': 60, 'session': k, 'transport': tr,
+                      'steps': [['arrive', 20], ['cost', 12000], ['cost', c2], ['arrive', 30], ['advance', 1.0], ['finish', 5],
+                                ['advance', 1.0], ['finish', 60]]}
+                     for k, tr, c2 in (('rpc', 'rs', 0), ('message', 'us', 0), ('rpc', 'us', 6000))]
         for i in range(n):
             steps = []
             for _ in range(rng.randrange(4, 14)):
@@ -506,6 +512,9 @@ class C13(Prop):
                     at = rng.randrange(len(steps) + 1)
                     steps[at:at] = [['cost', rng.choice([0, 2400, 3000, 4000, 6000, 8000])], ['arrive', rng.choice([1, 2, 30])],
                                     ['advance', rng.choice([0.05, 0.3, 1.0, 2.5])]]
+                if rng.random() < 0.3:
+                    at = rng.randrange(len(steps) + 1)
+                    steps[at:at] = [['cost', 12000], ['cost', rng.choice([0, 3000, 6000])]]     # over the hard limit and back
             case = {'session_workload': True, 'n': rng.choice([30, 80, 150]), 'steps': steps,
                     'session': rng.choice(['rpc', 'rpc', 'message']), 'transport': rng.choice(['rs', 'us'])}
             if rng.random() < 0.25:
